@@ -126,6 +126,16 @@ def _cmp(ops, *vals):
 '''
 
 
+def replayable(c):
+    """module-level function whose parameters are all of a kind value_of() can turn into Python values"""
+    if c.cls is not None: return False
+    for nm, ts in c.params.items():
+        ty = parse_type(ts)
+        if not (ty is INT or ty is BOOL or ty is STR or ty is NAME or isinstance(ty, PathT) or (isinstance(ty, SeqT) and (ty.elem is STR or ty.elem is NAME))):
+            return False
+    return True
+
+
 def replay(reg, repo, c, ob):
     """ob: discharged obligation dict with '_model'.  Returns a dict for the replay file or None."""
     model = ob.get("_model")
